@@ -328,6 +328,27 @@ theorem gk_bind_ret {p : Prog} (hp : GK p) (f : Val → Val) : GK (p >>- fun v =
   gk_bind hp (fun _ => GK.ret _)
 
 /-- every Custom-free generator -/
+theorem gk_uintNoReject (max : UInt64) (k : UInt64 → Prog) (hk : ∀ u, GK (k u)) : GK (uintNoReject max k) :=
+  gk_group_fk _ _ _ (gk_drawret _ _) (fk_draw _ _) (fun _ => hk _)
+
+theorem gk_ufloatSignif (ft : FT) (S : Nat) (p0 p1 : Int × UInt64 × UInt64) (e : Int) (l r : Bool) (fuel : Nat)
+    (k : UInt64 × UInt64 → Prog) (hk : ∀ x, GK (k x)) : GK (ufloatSignif ft S p0 p1 e l r fuel k) :=
+  gk_uintRange _ _ _ _ _ _ (fun _ _ _ => gk_uintNoReject _ _ (fun _ => gk_uintRange _ _ _ _ _ _ (fun _ _ _ => hk _)))
+
+theorem gk_ufloatRange (ft : FT) (f : FFmt) (min max : UInt64) (fuel : Nat) (k : Int → UInt64 → UInt64 → Prog)
+    (hk : ∀ e si sf, GK (k e si sf)) : GK (ufloatRange ft f min max fuel k) := by
+  unfold ufloatRange
+  split
+  · exact GK.throw _
+  · exact gk_group_fk _ _ _ (gk_intRange _ _ _ _ _ (fun _ _ _ => GK.ret _)) (fk_intRange _ _ _ _ _)
+      (fun v => gk_group_fk _ _ _ (gk_ufloatSignif _ _ _ _ _ _ _ _ _ (fun _ => GK.ret _)) (fk_ufloatSignif _ _ _ _ _ _ _ _ _)
+        (fun _ => hk _ _ _))
+
+theorem gk_floatValue (ft : FT) (f : FFmt) (min max : UInt64) (fuel : Nat) (k : UInt64 → Prog) (hk : ∀ b, GK (k b)) :
+    GK (floatValue ft f min max fuel k) := by
+  unfold floatValue floatRange
+  exact gk_coin _ _ (fun neg => by cases neg <;> exact gk_ufloatRange _ _ _ _ _ _ (fun _ _ _ => hk _))
+
 theorem gen_gk (e : Env) (hrt : RTPos e) : ∀ (g : Gen) (lab : Bool), g.NoCustom → GK (g.body e lab) := by
   intro g
   induction g with
@@ -335,6 +356,7 @@ theorem gen_gk (e : Env) (hrt : RTPos e) : ∀ (g : Gen) (lab : Bool), g.NoCusto
   | uint mn mx => intro _ _; exact gk_uintRange _ _ _ _ _ _ (fun _ _ _ => GK.ret _)
   | int mn mx => intro _ _; exact gk_intRange _ _ _ _ _ (fun _ _ _ => GK.ret _)
   | sampled n => intro _ _; exact gk_index _ _ _ _ _ (fun _ => GK.ret _)
+  | float f mn mx => intro _ _; exact gk_floatValue _ _ _ _ _ _ (fun _ => GK.ret _)
   | oneOf n gs ih =>
     intro lab h
     exact gk_index _ _ _ _ _ (fun i => gk_wrapValue _ (ih i lab (h i)) (gen_good e hrt (gs i) lab (h i)).fk)
